@@ -130,6 +130,12 @@ class VRag(V):
         self.ref = ref
 
 
+class VRagItems(V):
+    """dict.items() of an int-keyed dict of lists modelled as a list of arrays: pairs (key, row)"""
+    def __init__(self, rag):
+        self.rag = rag
+
+
 class RagCell:
     __slots__ = ('etype', 'count', 'lens', 'data')
 
